@@ -36,7 +36,7 @@ def ruleAcc (O : Oracle) (ns : List (Cps × Cps)) : SRule → Prop
   | .comment _ => True
   | .style sel blk => O.selOk ns sel.toks = true ∧ blockAcc O blk
   | .unknown _ => True
-  | .media _ g1 mq g2 _ rules => O.mediaOk (mediaHead g1 mq g2) = true ∧ rulesAcc O ns rules
+  | .media _ g1 mq g2 _ _ rules => O.mediaOk (mediaHead g1 mq g2) = true ∧ rulesAcc O ns rules
   | .fontface _ _ blk => blockAcc O blk
   | .page _ _ _ _ blk => pageBlockAcc O blk
 def rulesAcc (O : Oracle) (ns : List (Cps × Cps)) : SRules → Prop
@@ -45,17 +45,24 @@ def rulesAcc (O : Oracle) (ns : List (Cps × Cps)) : SRules → Prop
 end
 
 def impAcc (O : Oracle) : SImp → Prop
-  | .import_ _ _ _ _ (some p) => O.mediaOk (p.1 ++ Gap.toks p.2) = true
+  | .import_ _ _ _ _ (some p) _ => O.mediaOk (p.1 ++ Gap.toks p.2) = true
+  | _ => True
+
+def varDeclAcc (O : Oracle) (d : SVarDecl) : Prop := O.valueOk (d.value ++ Gap.toks d.g3) = true
+
+def varAcc (O : Oracle) : SVar → Prop
+  | .variables _ _ blk => (∀ p ∈ blk.items, varDeclAcc O p.1) ∧ ∀ d, blk.last = some d → varDeclAcc O d
   | _ => True
 
 /-- the oracle accepts every selector group list, value and media query list of `t` as written, and the `@charset` rule -/
 structure Accepts (O : Oracle) (t : SSheet) : Prop where
   charset : ∀ c, t.charset = some c → O.atOk .charsetSym false (charsetToks c) = true
   imports : ∀ p ∈ t.imports, impAcc O p.1
+  variables : ∀ p ∈ t.variables, varAcc O p.1
   rules : rulesAcc O (nsPairs t.namespaces) t.rules
 
 def impSafe : SImp → Prop
-  | .import_ _ _ href _ _ => 0x5C ∉ href.value
+  | .import_ _ _ href _ _ _ => 0x5C ∉ href.value
   | _ => True
 
 def nsSafe : SNs → Prop
@@ -214,14 +221,28 @@ theorem canonHref_wf (r : SHref) (hs : 0x5C ∉ r.value) : (canonHref r).WF := b
         obtain ⟨ys, rfl⟩ := List.getLast?_eq_some_iff.mp hx
         exact (notForb_plain (hall _ (by simp))).1
 
+theorem canonName_wf (tail : Gap) (name : SName) (h : NameWF name) : NameWF (canonName tail name) := by
+  intro p hp
+  cases name with
+  | none => cases hp
+  | some q =>
+    obtain ⟨qq, n, g⟩ := q
+    cases n with
+    | nil => simp [canonName] at hp
+    | cons c t =>
+      simp only [canonName, List.isEmpty_cons, Bool.false_eq_true, ↓reduceIte, Option.some.injEq] at hp
+      subst hp
+      exact h (qq, c :: t, g) rfl
+
 theorem canonImp_wf (O : Oracle) (M : List Cps) (r : SImp) (h : r.WF O M) (hs : impSafe r) (ha : impAcc O (canonImp r)) :
     (canonImp r).WF O M := by
   cases r with
   | comment b => trivial
   | unknown t => exact h
-  | import_ kw g1 href g2 mq =>
-    have h : ImportWF O href mq := h
-    refine (⟨canonHref_wf href hs, by rw [canonHref_value]; exact h.ne, ?_⟩ : ImportWF O _ _)
+  | import_ kw g1 href g2 mq name =>
+    have h : ImportWF O href mq name := h
+    refine (⟨canonHref_wf href hs, by rw [canonHref_value]; exact h.ne, ?_, canonName_wf [] name h.nameWF⟩ :
+      ImportWF O _ _ _)
     intro p hp
     cases mq with
     | none => cases hp
@@ -771,17 +792,17 @@ theorem canonRule_wf (O : Oracle) (M : List Cps) (ns : List (Cps × Cps)) (im : 
     have ha : O.selOk ns (canonSel sel).toks = true ∧ blockAcc O (canonBlock (lv + 1) blk) := ha
     exact (⟨canonSel_wf sel h.selWF, canonBlock_wf O _ blk h.blkWF ha.2, ha.1⟩ : StyleWF O ns _ _)
   | .unknown t, h, _, _ => h
-  | .media kw g1 mq g2 lead rules, h, ha, ht => by
-    have h : MqOk mq ∧ O.mediaOk (mediaHead g1 mq g2) = true ∧ rules.WF O M ns true := h
+  | .media kw g1 mq g2 name lead rules, h, ha, ht => by
+    have h : MqOk mq ∧ O.mediaOk (mediaHead g1 mq g2) = true ∧ rules.WF O M ns true ∧ NameWF name := h
     have ha : O.mediaOk (mediaHead (gLead g1) mq (gTrail g2 [.ws sp])) = true ∧
         rulesAcc O ns (canonRules (lv + 1) true rules) := ha
     have hsub : TidyL rules.toks := ht.mono (by
       intro t ht'
       simp only [SRule.toks, List.mem_cons, List.mem_append]
-      exact Or.inr (Or.inr (Or.inr (Or.inr (Or.inr (Or.inr (Or.inl ht')))))))
-    exact (⟨h.1, ha.1, canonRules_wf O M ns true (lv + 1) true rules h.2.2 ha.2 hsub⟩ :
+      exact Or.inr (Or.inr (Or.inr (Or.inr (Or.inr (Or.inr (Or.inr (Or.inl ht'))))))))
+    exact (⟨h.1, ha.1, canonRules_wf O M ns true (lv + 1) true rules h.2.2.1 ha.2 hsub, canonName_wf _ name h.2.2.2⟩ :
       MqOk mq ∧ O.mediaOk (mediaHead (gLead g1) mq (gTrail g2 [.ws sp])) = true ∧
-        (canonRules (lv + 1) true rules).WF O M ns true)
+        (canonRules (lv + 1) true rules).WF O M ns true ∧ NameWF (canonName [.ws sp] name))
   | .fontface kw g1 blk, h, ha, _ => by
     have h : im = false ∧ blk.WF O := h
     have ha : blockAcc O (canonBlock (lv + 1) blk) := ha
@@ -809,10 +830,65 @@ theorem canonRules_wf (O : Oracle) (M : List Cps) (ns : List (Cps × Cps)) (im :
       (canonRule lv r).WF O M ns im ∧ (canonRules lv inner rest).WF O M ns im)
 end
 
+/-! ## `@variables` -/
+
+theorem layVarItems_shape (lv : Nat) : (l : List SVarDecl) →
+    (∀ p ∈ (layVarItems lv l).1, ∃ d0 ∈ l, p.1 = canonVarDecl none d0) ∧
+    (∀ d, (layVarItems lv l).2 = some d → ∃ d0 ∈ l, d = canonVarDecl (some (nl lv)) d0)
+  | [] => ⟨(by intro p hp; cases hp), (by intro d hd; cases hd)⟩
+  | [d] => by simp [layVarItems]
+  | d :: e :: rest => by
+    have ih := layVarItems_shape lv (e :: rest)
+    simp only [layVarItems]
+    refine ⟨?_, ?_⟩
+    · intro p hp
+      simp only [List.mem_cons] at hp
+      rcases hp with rfl | hp
+      · exact ⟨d, by simp, rfl⟩
+      · obtain ⟨x, hx, e'⟩ := ih.1 p hp
+        exact ⟨x, List.mem_cons_of_mem _ hx, e'⟩
+    · intro d' hd
+      obtain ⟨d0, h0, e'⟩ := ih.2 d' hd
+      exact ⟨d0, List.mem_cons_of_mem _ h0, e'⟩
+
+theorem canonVarDecl_wf (O : Oracle) (c : Option Ws) (d : SVarDecl) (h : d.WF O) (ha : varDeclAcc O (canonVarDecl c d)) :
+    (canonVarDecl c d).WF O := ⟨h.name, h.value, h.head, ha⟩
+
+theorem varDecls_wf (O : Oracle) (b : SVarBlock) (h : b.WF O) : ∀ d ∈ varDecls b, d.WF O := by
+  intro d hd
+  simp only [varDecls, List.mem_append, List.mem_map] at hd
+  rcases hd with ⟨p, hp, rfl⟩ | hd
+  · exact h.items p hp
+  · cases hb : b.last with
+    | none => simp [hb] at hd
+    | some d' => simp [hb] at hd; subst hd; exact h.last _ hb
+
+theorem canonVar_wf (O : Oracle) (M : List Cps) (r : SVar) (h : r.WF O M) (ha : varAcc O (canonVar r)) :
+    (canonVar r).WF O M := by
+  cases r with
+  | comment b => trivial
+  | unknown t => exact h
+  | variables kw g0 blk =>
+    have h : blk.WF O := h
+    have ha : (∀ p ∈ (canonVarBlock 1 blk).items, varDeclAcc O p.1) ∧
+        ∀ d, (canonVarBlock 1 blk).last = some d → varDeclAcc O d := ha
+    have hs := layVarItems_shape 1 (varDecls blk)
+    refine (⟨?_, ?_⟩ : (canonVarBlock 1 blk).WF O)
+    · intro p hp
+      obtain ⟨d0, h0, e⟩ := hs.1 p hp
+      have := ha.1 p hp
+      rw [e] at this ⊢
+      exact canonVarDecl_wf O none d0 (varDecls_wf O blk h d0 h0) this
+    · intro d hd
+      obtain ⟨d0, h0, e⟩ := hs.2 d hd
+      have := ha.2 d hd
+      rw [e] at this ⊢
+      exact canonVarDecl_wf O _ d0 (varDecls_wf O blk h d0 h0) this
+
 theorem canonV_wf (O : Oracle) (M : List Cps) (s : SSheet) (h : s.WF O M) (hs : HrefSafe s)
     (ha : Accepts O (canonV s)) (ht : TidyL (render s)) : (canonV s).WF O M := by
   have hns : nsPairs (canonV s).namespaces = nsPairs s.namespaces := nsPairs_layStmts _ _
-  refine ⟨?_, ?_, ?_, ?_, ?_, ?_⟩
+  refine ⟨?_, ?_, ?_, ?_, ?_, ?_, ?_⟩
   · intro c hc
     cases hcs : s.charset with
     | none => simp [canonV, hcs] at hc
@@ -830,13 +906,18 @@ theorem canonV_wf (O : Oracle) (M : List Cps) (s : SSheet) (h : s.WF O M) (hs : 
     exact canonNs_wf M q.1 (h.namespacesOk q hq) (hs.namespaces q hq)
   · rw [hns]; exact h.prefixes
   · rw [hns]; exact h.uris
+  · intro p hp
+    obtain ⟨q, hq, e⟩ := layStmts_mem _ _ _ p hp
+    have := ha.variables p hp
+    rw [e] at this ⊢
+    exact canonVar_wf O M q.1 (h.variablesOk q hq) this
   · rw [hns]
     have har := ha.rules
     rw [hns] at har
     refine canonRules_wf O M _ false 0 false s.rules h.rulesOk har (ht.mono ?_)
     intro t ht'
     simp only [render, List.mem_append]
-    exact Or.inr (Or.inr (Or.inr (Or.inr (Or.inl ht'))))
+    exact Or.inr (Or.inr (Or.inr (Or.inr (Or.inr (Or.inl ht')))))
 
 /-! ## an oracle that accepts everything accepts every sheet (non-vacuity of `Accepts`) -/
 
@@ -858,7 +939,7 @@ theorem ruleAcc_of_yes (O : Oracle) (hv : ∀ l, O.valueOk l = true) (hsel : ∀
   | .comment _ => trivial
   | .style sel blk => ⟨hsel _ _, blockAcc_of_yes O hv blk⟩
   | .unknown _ => trivial
-  | .media _ g1 mq g2 _ rules => ⟨hm _, rulesAcc_of_yes O hv hsel hm ns rules⟩
+  | .media _ g1 mq g2 _ _ rules => ⟨hm _, rulesAcc_of_yes O hv hsel hm ns rules⟩
   | .fontface _ _ blk => blockAcc_of_yes O hv blk
   | .page _ _ _ _ blk => pageBlockAcc_of_yes O hv blk
 theorem rulesAcc_of_yes (O : Oracle) (hv : ∀ l, O.valueOk l = true) (hsel : ∀ ns l, O.selOk ns l = true)
@@ -869,11 +950,16 @@ end
 
 theorem accepts_of_yes (O : Oracle) (hv : ∀ l, O.valueOk l = true) (hsel : ∀ ns l, O.selOk ns l = true)
     (hm : ∀ l, O.mediaOk l = true) (hc : ∀ l, O.atOk .charsetSym false l = true) (t : SSheet) : Accepts O t := by
-  refine ⟨fun c _ => hc _, ?_, rulesAcc_of_yes O hv hsel hm _ _⟩
-  intro p _
-  cases p.1 with
-  | comment b => trivial
-  | unknown ts => trivial
-  | import_ kw g1 href g2 mq => cases mq <;> first | exact hm _ | trivial
+  refine ⟨fun c _ => hc _, ?_, ?_, rulesAcc_of_yes O hv hsel hm _ _⟩
+  · intro p _
+    cases p.1 with
+    | comment b => trivial
+    | unknown ts => trivial
+    | import_ kw g1 href g2 mq name => cases mq <;> first | exact hm _ | trivial
+  · intro p _
+    cases p.1 with
+    | comment b => trivial
+    | unknown ts => trivial
+    | variables kw g0 blk => exact ⟨fun _ _ => hv _, fun _ _ => hv _⟩
 
 end CssVerif.SheetCanon
